@@ -22,7 +22,8 @@ const (
 	Loss      = "total_loss" // nothing arrives
 )
 
-var Kinds = []string{Truncate, DropChunk, DupChunk, SwapChunk, ZeroChunk, BitFlip, StaleTail, Splice, Loss}
+var Kinds = []string{Truncate, DropChunk, DupChunk, SwapChunk, ZeroChunk, BitFlip, StaleTail, Splice, Loss,
+	FieldTruncate, FieldLost, FieldMisdirect, FieldSwap}
 
 var ChunkSizes = []int{1, 4, 16, 64, 512}
 
@@ -46,6 +47,12 @@ func (f Fault) String() string {
 		return fmt.Sprintf("%s(chunk=%d,%d<->%d)", f.Kind, f.Chunk, f.A, f.B)
 	case StaleTail, Splice:
 		return fmt.Sprintf("%s(chunk=%d,@%d)", f.Kind, f.Chunk, f.A)
+	case FieldTruncate:
+		return fmt.Sprintf("%s(text#%d,keep=%d)", f.Kind, f.A, f.B)
+	case FieldLost:
+		return fmt.Sprintf("%s(value#%d,%s)", f.Kind, f.A, []string{"null", "absent"}[f.B%2])
+	case FieldMisdirect, FieldSwap:
+		return fmt.Sprintf("%s(value#%d,value#%d)", f.Kind, f.A, f.B)
 	}
 	return fmt.Sprintf("%s(chunk=%d,#%d)", f.Kind, f.Chunk, f.A)
 }
@@ -54,6 +61,10 @@ func (f Fault) String() string {
 // the result differs from msg. other is another message on the same wire /
 // disk (the previous contents of the sector, a neighbouring blob).
 func Apply(msg []byte, f Fault, other []byte) []byte {
+	switch f.Kind {
+	case FieldTruncate, FieldLost, FieldMisdirect, FieldSwap:
+		return applyField(msg, f)
+	}
 	out := append([]byte(nil), msg...)
 	cs := f.Chunk
 	if cs <= 0 {
@@ -152,6 +163,19 @@ func DrawProgram(t *core.Tape, msgLen int, max int, enabled []string) []Fault {
 			}
 		case BitFlip:
 			f.A = t.Draw(span * 8)
+		case FieldTruncate:
+			// column widths are small or generous: 0..3 bytes survive, or any number
+			f.A = t.Draw(span)
+			if t.Bool(1, 2) {
+				f.B = t.Draw(4)
+			} else {
+				f.B = t.Draw(span)
+			}
+			f.Chunk = 0
+		case FieldLost, FieldMisdirect, FieldSwap:
+			f.A = t.Draw(span)
+			f.B = t.Draw(span)
+			f.Chunk = 0
 		default:
 			f.A = t.Draw(span)
 			f.B = t.Draw(span)
